@@ -58,7 +58,7 @@ def do_import(pid, outdir, tag=""):
         sh(f"git -C /repo worktree remove --force {wt}")
 
 
-SANDBOX = "/tmp/seedeval"
+SANDBOX = os.environ.get("SEED_SANDBOX", "/tmp/seedeval")
 
 
 def prepare_sandbox():
